@@ -449,6 +449,31 @@ func (p *Program) renames() *renameInfo {
 	return ri
 }
 
+// SameSignatureAsReference: the function has the parameter and result types its reference entry has (true when it has no entry).
+func (p *Program) SameSignatureAsReference(fn *ssa.Function) bool {
+	ri := p.renames()
+	rel, recv, name, sig, ok := p.fnKey(fn)
+	if !ok {
+		return true
+	}
+	key := rel + "|" + recv + "|" + name
+	if _, direct := ri.ref[key]; !direct {
+		for k, g := range ri.byKey {
+			if g == fn {
+				key = k
+			}
+		}
+	}
+	ref, known := ri.ref[key]
+	if !known {
+		return true
+	}
+	if ri.conv[fn] != 0 {
+		return false // a method that became a function or the reverse: another parameter list
+	}
+	return ref == sig
+}
+
 // CanonName returns the name the rules know the function under: its own name, or the reference name when the function
 // was recognised as a rename.
 func (p *Program) CanonName(fn *ssa.Function) string {
